@@ -152,6 +152,11 @@ def run(ctx):
                      ["--cinit=CInit", "--init=IndInit", "--inv=Safety", "--length=0"]):
             core.apalache_check(ctx, "reassembler", "ReassemblerInd", args)
             ind += 1
+        for k, mx in ((3, 1),) if ctx.tier == "quick" else ((3, 0), (3, 2), (4, 1)):
+            cfg = "\n".join(["SPECIFICATION Spec", "CONSTANTS", " K = %d" % k, " MaxInFlight = %d" % mx, ' Bug = "none"',
+                             "CONSTRAINT Bound", "INVARIANTS IndInv Safety", "CHECK_DEADLOCK FALSE"]) + "\n"
+            r = ctx.tlc("reassembler", "MC_ReassemblerInd", cfg, workers=core.NCPU, timeout=1800)
+            ctx.log("TLC on the same module (offsets 0..%d, maxInFlight %d, at most 2 records per number): %d distinct states" % (k, mx, r.distinct))
         ctx.log("Apalache discharged the inductive invariant of the eventList for unbounded histories "
                 "(Init => IndInv, IndInv /\\ Next => IndInv', IndInv => Safety; offsets 0..5, maxInFlight 0..3)")
 
